@@ -63,12 +63,13 @@ enum Variant
   V_STR_CUPTR_VOL,
   V_CV_ARRAY_REF,
   V_CV_BUFADDR_VOL,
+  V_CV_STRUCT_VALUE,
   V_COUNT
 };
 static const char* kVar[] = { "string_uptr",   "string_std",  "string_uptr_from_cell", "string_std_from_cell", "range_char",   "range_short",
                               "range_int",     "range_ll",    "range_double",          "range_int_from_cell",  "cv_ptr_prim",  "cv_ptr_prim_from_cell",
                               "cv_fund_in_cell", "cv_struct", "cv_array_field",        "cv_address_from_cell", "cv_buffer_address", "deny_access_copy",
-                              "string_const_uptr", "string_const_uptr_from_cell", "cv_array_field_by_reference", "cv_buffer_address_from_cell" };
+                              "string_const_uptr", "string_const_uptr_from_cell", "cv_array_field_by_reference", "cv_buffer_address_from_cell", "cv_struct_by_value" };
 static_assert(sizeof(kVar) / sizeof(kVar[0]) == V_COUNT);
 
 enum Mut
@@ -104,6 +105,7 @@ static size_t elem_size(int v)
     case V_RANGE_DOUBLE:
       return 8;
     case V_CV_STRUCT:
+    case V_CV_STRUCT_VALUE:
     case V_CV_ARRAY:
     case V_CV_ARRAY_REF:
     case V_CV_FUND_VOL:
@@ -122,7 +124,7 @@ static bool uses_cell(int v)
 }
 static bool single_object(int v)
 {
-  return v == V_CV_PRIM || v == V_CV_PRIM_VOL || v == V_CV_FUND_VOL || v == V_CV_STRUCT || v == V_CV_ARRAY || v == V_CV_ARRAY_REF || v == V_CV_ADDR_VOL;
+  return v == V_CV_PRIM || v == V_CV_PRIM_VOL || v == V_CV_FUND_VOL || v == V_CV_STRUCT || v == V_CV_STRUCT_VALUE || v == V_CV_ARRAY || v == V_CV_ARRAY_REF || v == V_CV_ADDR_VOL;
 }
 
 // length of a string handed over in a heap block of its own: never reads beyond the block
@@ -391,6 +393,8 @@ struct ToctouWorld : World
     std::unique_ptr<int> u_prim;
     std::unique_ptr<rlbox::tainted<SimNode, Sbx>> u_struct;
     std::array<char, 8> arr{};
+    SimNode node_value{};
+    bool node_value_set = false;
     long fund = 0;
     uintptr_t addr_val = 0;
     char* deny_buf = nullptr;
@@ -528,6 +532,19 @@ struct ToctouWorld : World
             },
             lenA);
           break;
+        case V_CV_STRUCT_VALUE: {
+          // copy_and_verify on the struct itself (as it lives in sandbox memory): the verifier gets a tainted copy
+          std::function<SimNode(rlbox::tainted<SimNode, Sbx>)> vf = [&](rlbox::tainted<SimNode, Sbx> v) {
+            verifier_saw(&v, sizeof v);
+            SimNode r{};
+            r.tag = v.tag.UNSAFE_unverified();
+            r.big = v.big.UNSAFE_unverified();
+            return r;
+          };
+          node_value = (*pA((SimNode*)0)).copy_and_verify(vf);
+          node_value_set = true;
+          break;
+        }
         case V_CV_ARRAY_REF:
           // the verifier takes the array by reference: what it is handed must still be an application-side copy
           arr = pA((SimNode*)0)->name.copy_and_verify([&](const std::array<char, 8>& a) {
@@ -749,6 +766,8 @@ struct ToctouWorld : World
         if (!c.stop && (!ptr_ok((uintptr_t)t->data.UNSAFE_unverified(), offsetof(GNode, data)) || !ptr_ok((uintptr_t)t->next.UNSAFE_unverified(), offsetof(GNode, next)) ||
                         !ptr_ok((uintptr_t)t->ptrs[1].UNSAFE_unverified(), offsetof(GNode, ptrs) + 4)))
           c.violate("C09", cls("delivered_pointer_field_never_in_source"), "a pointer field of the struct snapshot is outside the sandbox or was never designated by the source");
+      } else if (variant == V_CV_STRUCT_VALUE) {
+        // handled below (nothing is kept by address)
       } else if (variant == V_CV_FUND_VOL) {
         bool ok = false;
         for (auto& v : versions) {
@@ -769,7 +788,7 @@ struct ToctouWorld : World
         }
       }
       // fault-free: exact content
-      if (fault_free && !c.stop && variant != V_CV_STRUCT) {
+      if (fault_free && !c.stop && variant != V_CV_STRUCT && variant != V_CV_STRUCT_VALUE) {
         const uint8_t* src = &versions[0][offA + (variant == V_CV_ARRAY || variant == V_CV_ARRAY_REF ? offsetof(GNode, name) : 0)];
         size_t n = is_string(variant) ? kept_n - 1 : kept.size();
         if (is_string(variant) && n != lenA)
@@ -792,6 +811,19 @@ struct ToctouWorld : World
       else if (variant != V_CV_ADDR_VOL && addr_val != 0 && (addr_val < base || addr_val - base + (size_t)lenA * esz > S))
         // the address that was handed over is not the one whose extent was checked
         c.violate("C09", cls("buffer_address_handed_over_without_its_checked_extent"), "%u elements from offset %lld do not fit the region", lenA, (long long)(addr_val - base));
+    }
+    if (variant == V_CV_STRUCT_VALUE && o == OK && node_value_set && !c.stop) {
+      // a field-by-field copy of memory the guest keeps writing is not an atomic snapshot (and the statement does not
+      // ask for one): every field, on its own, must have been in the source at some moment
+      bool tag_ok = false, big_ok = false;
+      for (auto& v : versions) {
+        GNode n;
+        memcpy(&n, &v[offA], sizeof n);
+        tag_ok = tag_ok || n.tag == node_value.tag;
+        big_ok = big_ok || n.big == node_value.big;
+      }
+      if (!tag_ok || !big_ok)
+        c.violate("C09", cls("delivered_value_never_in_source"), "struct copy: field %s was never in the source", tag_ok ? "big" : "tag");
     }
     if (variant == V_DENY && o == OK && !c.stop) {
       if (deny_buf == nullptr)
